@@ -29,7 +29,36 @@ const char *why_name(int w) {
 
 int64_t ops_now() { return W.now_us; }
 int64_t ops_next_event() { return W.next_flight_time(); }
-void ops_advance(int64_t t) { if (t > W.now_us) W.now_us = t; W.deliver_due(); }
+void ops_advance(int64_t t) {
+  if (sched_idle_jump && g_mb && g_mb->run && peek_available()) {
+    // Nothing can run before t. If a query's deadline passes well before the event thread's own wake-up (and before any
+    // packet that could wake it), that query outwaits its deadline: nobody will retry or fail it in time.
+    Run &run = *g_mb->run;
+    Chan &c = run.chans.empty() ? *(Chan *)nullptr : run.chans[0];
+    if (!run.chans.empty() && c.alive && !c.destroying && c.ch) {
+      long long dl = 0;
+      if (peek_earliest_deadline(c.ch, &dl)) {
+        // rounding of the hint (+1 ms, truncated microseconds); in "slow machine" runs the clock steps taken while threads were
+        // runnable may lie between the event thread's hint computation and its wait call, so all of them count as slack
+        // (those runs still catch a wait without any deadline)
+        int64_t slack = 3000 + sched_stall_total_us();
+        int64_t d_ev = -2;   // -2: no event thread waiting, -1: waits without deadline
+        for (int i = 0; i < sched_nthreads(); i++)
+          if (sched_thread_is_lib(i) && sched_thread_state(i) == 1 && sched_thread_why(i) == WHY_WAITCALL) { int64_t d = sched_thread_deadline(i); if (d_ev == -2 || (d_ev >= 0 && (d < 0 || d > d_ev)) ) d_ev = d; }
+        int64_t nf = W.next_flight_time();
+        bool ev_late = d_ev == -1 || (d_ev >= 0 && d_ev > (int64_t)dl + slack);
+        bool net_late = nf < 0 || nf > (int64_t)dl + slack;
+        if (d_ev != -2 && ev_late && net_late && t > (int64_t)dl + slack) {
+          run.note("event_thread_overslept");
+          if (run.viol.empty() || run.viol.back().oracle != "event_thread_oversleeps_deadline")
+            run.violate("C07", "event_thread_oversleeps_deadline", "a query deadline at +" + std::to_string(((int64_t)dl - run.cfg.t0_us) / 1000) + " ms passes while no thread can run: the event thread sleeps " + (d_ev < 0 ? std::string("without a deadline") : "until +" + std::to_string((d_ev - run.cfg.t0_us) / 1000) + " ms") + ", next network event " + (nf < 0 ? std::string("none") : "+" + std::to_string((nf - run.cfg.t0_us) / 1000) + " ms") + " (now +" + std::to_string((W.now_us - run.cfg.t0_us) / 1000) + " ms)");
+        } else run.note("idle_jump_deadline_checked");
+      }
+    }
+  }
+  if (t > W.now_us) W.now_us = t;
+  W.deliver_due();
+}
 
 std::string hex64(uint64_t v) { char b[20]; snprintf(b, sizeof b, "%016llx", (unsigned long long)v); return b; }
 
@@ -60,7 +89,7 @@ std::string hex64(uint64_t v) { char b[20]; snprintf(b, sizeof b, "%016llx", (un
   for (auto &p : W.fault_armed) s.kv((std::string("fault_armed.") + fault_class_name[p.first]).c_str(), (int64_t)p.second);
   s.kv((std::string("evsys.") + std::to_string(run.cfg.evsys)).c_str(), (int64_t)1);
   s.kv((std::string("sched_policy.") + std::to_string(run.cfg.sched_policy)).c_str(), (int64_t)1);
-  s.kv("sched.switches", (int64_t)sched_switches()).kv("sched.points", (int64_t)sched_steps());
+  s.kv("sched.switches", (int64_t)sched_switches()).kv("sched.points", (int64_t)sched_steps()).kv("fault_fired.clock_step_while_running", (int64_t)sched_stalls());
   s.end_obj();
   s.key("samples").arr();
   if (nt) { JW e; e.obj().kv("seed", run.cfg.seed).kv("threads", (int64_t)sched_nthreads()).kv("requests", (int64_t)run.reqs.size()).kv("scheduling_points", (int64_t)sched_steps()).kv("context_switches", (int64_t)sched_switches()).end_obj(); s.raw(e.s); }
@@ -215,6 +244,7 @@ int run_mode_b(const RunCfg &cfg, const std::vector<Step> &plan, const std::vect
   sched_realtime_off = realtime_off;
   sched_init(cfg.seed * 2654435761ULL + 17, cfg.sched_policy, cfg.sched_preempt, &ops, 400000);
   if (decisions) sched_set_decisions(decisions->data(), (int)decisions->size());
+  sched_set_stall((int)cfg.knob("sched_stall_permille", 0), cfg.knob("sched_stall_max_us", 1000));
 
   if (!run.make_channel(0)) { run.note("init_failed"); finish_and_exit(run, 0); }
   std::vector<CallerArg> args((size_t)nthreads + 1);
